@@ -248,7 +248,8 @@ def enumerate_sites(idx: Index, cg: CallGraph, known_ops: Set[str], *, skip_rel:
                     if val is not None and val not in known_ops:
                         continue  # e.g. "initializers": attribute probing, not an operator
                     for uc in use_calls:
-                        sites.append(EmitSite(m, uc, fi, val, "B", _attrs(uc), _count_pos(uc), _n_outputs(uc), chain, why_unresolved=why))
+                        extra, _complete = splat_attr_names(uc, fi, chain)
+                        sites.append(EmitSite(m, uc, fi, val, "B", sorted(set(_attrs(uc)) | set(extra)), _count_pos(uc), _n_outputs(uc), chain, why_unresolved=why))
                         stats["B"] += 1
                 continue
             # ---- form C: ir.Node(...)
@@ -304,6 +305,86 @@ def enumerate_sites(idx: Index, cg: CallGraph, known_ops: Set[str], *, skip_rel:
                     sites.append(EmitSite(m, n, fi, val, "D", [], None, None, chain, why_unresolved=why))
                     stats["D"] += 1
     return sites, stats
+
+
+def _unconditional_wrt(stmt: ast.AST, use: ast.AST) -> bool:
+    """Every `if` enclosing stmt also encloses use (so the addition happens whenever the use does)."""
+    use_anc = {id(p) for p in parents(use)}
+    for p in parents(stmt):
+        if isinstance(p, (ast.If, ast.IfExp, ast.Try, ast.For, ast.While)) and id(p) not in use_anc:
+            return False
+        if isinstance(p, (ast.FunctionDef, ast.AsyncFunctionDef)):
+            break
+    return True
+
+
+def splat_attr_names(uc: ast.Call, fi: Optional[FuncInfo], chain: List[CallSite]) -> Tuple[List[str], bool]:
+    """Attribute names supplied through `**mapping` at a builder call inside a helper: follow the mapping to a
+    parameter of the helper and read the dict literal the innermost call site passes for it.
+    -> (names, complete): complete=False when some splat could not be resolved."""
+    names: List[str] = []
+    complete = True
+    splats = [k.value for k in uc.keywords if k.arg is None]
+    if not splats:
+        return names, True
+    if fi is None:
+        return names, False
+    du = defuse(fi.node)
+    for sp in splats:
+        params = [n for n in du.closure({x.id for x in ast.walk(sp) if isinstance(x, ast.Name)}) if du.is_param(n)]
+        # literal additions inside the helper:  attrs_dict["axis"] = …  /  dict(a=1)
+        for nm in du.closure({x.id for x in ast.walk(sp) if isinstance(x, ast.Name)}):
+            for d in du.defs.get(nm, []):
+                if d.kind == "setitem" and isinstance(d.stmt, ast.Assign) and _unconditional_wrt(d.stmt, uc):
+                    for t in d.stmt.targets:
+                        if isinstance(t, ast.Subscript) and isinstance(t.slice, ast.Constant) and isinstance(t.slice.value, str):
+                            names.append(t.slice.value)
+                if d.value is not None and isinstance(d.value, ast.Dict):
+                    for k in d.value.keys:
+                        if isinstance(k, ast.Constant) and isinstance(k.value, str):
+                            names.append(k.value)
+                        else:
+                            complete = False
+        if not params:
+            continue
+        cs = chain[-1] if chain else None
+        if cs is None or cs.callee is not fi:
+            complete = False
+            continue
+        for pn in params:
+            how, expr = arg_for_param(cs, pn)
+            if expr is None or (isinstance(expr, ast.Constant) and expr.value is None):
+                continue
+            cand = [expr]
+            if isinstance(expr, ast.Name) and cs.caller is not None:
+                cdu = defuse(cs.caller.node)
+                cand = []
+                for d in cdu.defs.get(expr.id, []):
+                    if d.kind == "setitem" and isinstance(d.stmt, ast.Assign):
+                        # the operator is fixed at this call site: every key the caller may add must be valid for it
+                        for t in d.stmt.targets:
+                            if isinstance(t, ast.Subscript) and isinstance(t.slice, ast.Constant) and isinstance(t.slice.value, str):
+                                names.append(t.slice.value)
+                            elif isinstance(t, ast.Subscript):
+                                complete = False
+                    elif d.value is not None:
+                        cand.append(d.value)
+                if not cand and not names:
+                    cand = [expr]
+            for e in cand:
+                if isinstance(e, ast.Dict):
+                    for k in e.keys:
+                        if isinstance(k, ast.Constant) and isinstance(k.value, str):
+                            names.append(k.value)
+                        else:
+                            complete = False
+                elif isinstance(e, ast.Call) and (call_name(e) or "") == "dict" and not e.args:
+                    names += [k.arg for k in e.keywords if k.arg]
+                elif isinstance(e, ast.Constant) and e.value is None:
+                    pass
+                else:
+                    complete = False
+    return sorted(set(names)), complete
 
 
 def _dedupe(items):
